@@ -121,6 +121,13 @@ CLAIMED = {
          "allocator ledger recording the peak heap; the trace specification accepts only a returned call (no fatal signal / timeout) with peak heap <= "
          "256 n + 1 MiB. Stack use itself is observed through the process status, not measured.",
          "TLA+ closed-form adversarial inputs + TLC enumeration + trace validation of termination / heap bound"),
+ "C19": ("exploration", "7 C19",
+         "Threads.tla: N threads stepping thread-local Codec sessions; TLC explores every interleaving of small scripts and checks that each thread's "
+         "history is the sequential one and that no step writes shared state. Binding: codec sessions over (type, value, syntax) are dealt to 2..8 "
+         "threads released together, in several random deals, in a plain and a ThreadSanitizer build; every thread's trace must equal the trace of the "
+         "same session run alone and is validated by TLC against Codec.tla independently of the schedule; a TSan report, crash or hang fails the check. "
+         "Interleavings are sampled, not enumerated; absence of races is observed, not proved.",
+         "TLA+ thread-local session model (TLC: all interleavings of small scripts) + concurrent replay under TSan + per-thread trace validation"),
 }
 
 checks = []
